@@ -510,8 +510,11 @@ func (sf IntLatLngSnapper) MinEdgeVertexSeparation() s1.Angle {
 
 // SnapPoint returns a candidate snap site for the given point.
 func (sf IntLatLngSnapper) SnapPoint(point Point) Point {
+	// The grid is in degrees: round latitude and longitude in degrees scaled
+	// by 10^exponent (up to 1.8e12 for E10, beyond int32) to the nearest
+	// integer.
 	input := LatLngFromPoint(point)
-	lat := s1.Angle(roundAngle(input.Lat * sf.from))
-	lng := s1.Angle(roundAngle(input.Lng * sf.from))
-	return PointFromLatLng(LatLng{lat * sf.to, lng * sf.to})
+	lat := math.Round(input.Lat.Degrees() * float64(sf.from))
+	lng := math.Round(input.Lng.Degrees() * float64(sf.from))
+	return PointFromLatLng(LatLngFromDegrees(lat*float64(sf.to), lng*float64(sf.to)))
 }
